@@ -77,6 +77,7 @@ func runC07(c *Ctx) {
 	runGuardTable(c, "contract-guard", ge, tab)
 	c.Min("contract-guard", len(tab))
 	c07ChallengeReduction(c)
+	c02StalePointers(c) // "resolved at most once": the resolved mark must reach the MidState's slice
 	valueSources(c, ge, "payout", map[string]bool{"v1-storage-proof-valid-outputs": true, "v1-expiry-missed-outputs": true, "v2-resolution-renter": true, "v2-resolution-host": true})
 	// totals fixed: the value-preservation equations
 	cache := map[string][]Guard{}
